@@ -46,6 +46,17 @@ theorem never_crashes (c : Config) (n : Nat) (sf : Option Nat) : (start handlerN
 theorem refusal_names_a_violation (c : Config) (site : Check) (h : configure c = some site) : (true, site) ∈ chain c :=
   firstFail_some_mem h
 
+/-- Each coordinator takes its modules in Go map order, i.e. in an arbitrary order.  Whether the
+    configuration is refused does not depend on that order (`configureSites` is the set of sites a
+    refusal may name over all orders: empty exactly when the listed order passes) … -/
+theorem refusal_independent_of_module_order (c : Config) : configureSites c = [] ↔ Valid c :=
+  (configureSites_nil_iff c).trans (configure_none_iff_valid c)
+
+/-- … and the site named for the listed order is one of them (the correspondence run accepts any of
+    them from the real code). -/
+theorem refusal_site_is_possible (c : Config) (site : Check) (h : configure c = some site) : site ∈ configureSites c :=
+  configure_mem_sites h
+
 /-- the defect that was repaired (D13): with the original handler — `Logger.Panic(r.(string))` — EVERY
     invalid configuration made Start panic into its caller instead of returning 1 -/
 theorem original_handler_crashed (c : Config) (n : Nat) (sf : Option Nat) (h : ¬ Valid c) :
